@@ -24,11 +24,11 @@ RULE = (
     "Non-trivial = a run that contains all three regimes (k <= n_burn_in, k = n_burn_in+1, k >= n_burn_in+2); distinct by configuration."
 )
 ASSUMPTIONS = [
-    "n_burn_in = the explicit count if given, else int(fraction * n_iter) evaluated in Python floats (the documented formula; int(0.29*100) = 28 is expected).",
+    "n_burn_in = the explicit count if given (also when the fraction keeps its default value: the code documents that the count has priority), else int(fraction * n_iter) evaluated in Python floats (the documented formula; int(0.29*100) = 28 is expected).",
     "Memory-less phase (k <= n_burn_in + 1): S_k must equal s_k bit-exactly. Afterwards S_k must equal (1-e_k) S_(k-1) + e_k s_k both bit-exactly with the same float32 ops and against float64 within 8 ulp of the summed magnitudes.",
     "LeaspyConvergenceError during a generated fit (collapsed variance) ends the case as a rejected input.",
 ]
-REQUIRED_CLASSES = {"all-three-regimes": 100, "refused-power": 12, "nb=0": 10, "nb>=n_iter": 10, "explicit-count": 50}
+REQUIRED_CLASSES = {"all-three-regimes": 100, "refused-power": 12, "nb=0": 10, "nb>=n_iter": 10, "explicit-count": 50, "explicit-count+default-fraction": 30}
 
 GRID_FRACS = [0.0, 0.1, 0.29, 0.5, 0.7, 0.9, 1.0]
 GRID_POWERS = [0.51, 0.8, 1.0]
@@ -116,6 +116,9 @@ def run_config(col: Collector, cfg, cohort, algo_kw, sub_check, classes):
                                          **{k: v for k, v in algo_kw.items() if k != "seed"})
             model.fit(data, algorithm_settings=settings)
     except LeaspyAlgoInputError as e:
+        if ok_power and gen.is_zero_scale_refusal(e):
+            col.exclude("sampler-refused:zero-initial-scale")
+            return None
         if ok_power:
             col.fail(sub_check, "valid-configuration-refused:" + exc_bucket(e), inp, observed=repr(e), expected="runs all iterations")
         elif rec:
@@ -129,6 +132,9 @@ def run_config(col: Collector, cfg, cohort, algo_kw, sub_check, classes):
     except Exception as e:
         if type(e).__name__ == "ConvergenceError":
             col.exclude("joint-init-weibull-fit-not-converged")
+            return None
+        if gen.is_zero_scale_refusal(e):
+            col.exclude("sampler-refused:zero-initial-scale")
             return None
         col.fail(sub_check, "unexpected-exception:" + exc_bucket(e), inp, observed=repr(e), expected="fit runs")
         return set()
@@ -186,6 +192,8 @@ def judge_cfg(col, cfg, cohort, algo_kw, sub_check, extra_classes=()):
     if algo_kw.get("n_burn_in_iter") is not None:
         nb = algo_kw["n_burn_in_iter"]
         classes.append("explicit-count")
+        if "n_burn_in_iter_frac" not in algo_kw:
+            classes.append("explicit-count+default-fraction")
     else:
         nb = int(algo_kw.get("n_burn_in_iter_frac", 0.9) * n_iter)
     if nb == 0:
@@ -211,6 +219,8 @@ def grid_configs():
                 out.append(dict(n_iter=n_iter, n_burn_in_iter_frac=fr, burn_in_step_power=power))
             for cnt in range(0, n_iter + 2):
                 out.append(dict(n_iter=n_iter, n_burn_in_iter=cnt, n_burn_in_iter_frac=None, burn_in_step_power=power))
+            for cnt in (0, n_iter // 2, n_iter):  # count given, fraction left at its default: the count has priority
+                out.append(dict(n_iter=n_iter, n_burn_in_iter=cnt, burn_in_step_power=power))
     return out
 
 
@@ -253,7 +263,8 @@ def gen_case(draw, kinds):
         akw["n_burn_in_iter_frac"] = draw(st.one_of(st.sampled_from([0.0, 1.0, 0.5, 0.9]), st.floats(0, 1, allow_nan=False)))
     else:
         akw["n_burn_in_iter"] = draw(st.integers(0, n_iter + 2))
-        akw["n_burn_in_iter_frac"] = None
+        if draw(st.booleans()):
+            akw["n_burn_in_iter_frac"] = None  # else: fraction left at its default, the explicit count still has priority
     pw = draw(st.one_of(st.sampled_from([1.0, 0.51, 0.8]), st.floats(0.5, 1.0, exclude_min=True, allow_nan=False), st.sampled_from(BAD_POWERS)))
     akw["burn_in_step_power"] = pw
     if draw(st.booleans()):
